@@ -9,7 +9,8 @@ CLAIMED = {
         "every program of the bound, which the harness compiles with the real RegisterAllocator<N> at several budgets; "
         "Trace_C01 (TLA+) then decides, per recorded (SSA tape, register tape, results), that the register tape implements "
         "the SSA tape (symbolic execution), keeps the index discipline, and that point and slice results equal the "
-        "reference bit for bit; Z-programs are re-evaluated in Integers by TLC.",
+        "reference bit for bit; Z-programs are re-evaluated in Integers by TLC. Flatten.tla models SsaTape::new (DAG to SSA tape); every "
+        "DAG of its bound is built through the real Context and the recorded tape compared with the predicted one.",
    note="value agreement is sampled (specials + random points); opcode reference = UnaryOpcode/BinaryOpcode::eval and "
         "Context::eval (the graph evaluated directly); evaluations where a NaN reaches rand/mix are only counted",
    technique="TLA+ design model (TLC exhaustive) + TLC-generated programs replayed into the real compiler + TLA+ trace validation",
@@ -49,7 +50,9 @@ CLAIMED["C03"] = dict(
         "depth 2-3: well-formedness and enclosure of a carried point) and enumerates the case classes each operator distinguishes; the "
         "harness evaluates the real interpreter and JIT interval evaluators on generator programs, class-directed single-op cases and "
         "shapes with affine / projective transforms; Trace_C03 (TLA+) decides enclosure of every sampled point value (4 ulps; NaN "
-        "interval / NaN point excepted) end to end and, as local obligations on all-slots-exported tapes, per op.",
+        "interval / NaN point excepted) end to end and, as local obligations on all-slots-exported tapes, per op. TLAPS proves the "
+        "enclosure lemmas of the finite core (mul, add, sub, neg, min, max, abs, square) over all integers; directed families exercise "
+        "overflow to infinity followed by NaN-absorbing operators.",
    note="the point evaluator is the oracle (as the property states); boxes are sampled at corners, edge midpoints, centre, interior and "
         "critical points; WGSL and aarch64 not reachable",
    technique="TLA+ design model (TLC) + TLC-enumerated case classes replayed into the real evaluators + TLA+ trace validation",
@@ -67,7 +70,8 @@ CLAIMED["C10"] = dict(
    text="TLC exhausts the reuse model (stale-content tokens through the transcribed reset code of evaluators, workspace and storage, "
         "histories to length 7) and emits every history up to the bound plus simulated long ones; the harness replays each on real "
         "reused evaluators / tape storage / function storage / workspaces for VM<255>, VM<3> and JIT over functions of different "
-        "shapes and repeats every action with fresh objects; Trace_C10 requires identical observations.",
+        "shapes and repeats every action with fresh objects; Trace_C10 requires identical observations. Handle.tla models the RenderHandle "
+        "chain of cached simplifications; its walk histories are replayed on a real RenderHandle with persistent storage.",
    note="fresh-object results are the reference; histories are over three functions at a time",
    technique="TLA+ design model (TLC) + TLC-generated histories replayed on real objects + TLA+ trace validation",
    design_ref="DESIGN.md section 3 C10")
